@@ -148,6 +148,10 @@ func minTransferDistRecur(refTree *tree.Tree, ntips int, cur, prev *tree.Node, c
 func TBE(reftree *tree.Tree, boottrees <-chan tree.Trees, cpu int,
 	outrawtree bool, computeavgtaxa, computeperbranchtaxa bool, distcutoff float64,
 	logfile *os.File, sup *Supporter) (rawtree *tree.Tree, err error) {
+	// At least one thread
+	if cpu < 1 {
+		cpu = 1
+	}
 	tips := reftree.Tips()
 
 	//vals := make([]int, len(edges))
